@@ -1,5 +1,6 @@
 import AlgopyVerif.Proofs.Linalg
 import AlgopyVerif.Proofs.LinalgInv
+import AlgopyVerif.Proofs.LinalgModule
 import AlgopyVerif.Proofs.Logdet
 import AlgopyVerif.Proofs.Pade
 import AlgopyVerif.Proofs.FaddeevLeVerrier
@@ -39,8 +40,10 @@ concrete matrix type in the driver — with the NumPy results on the zeroth coef
   recursion divides by the integers `2..N` only and therefore stays inside `ℝ⟦t⟧`, where truncation modulo `t^D` is a ring
   homomorphism) — the Faddeev–LeVerrier theorem, derived from `(X·1 − A)·adj(X·1 − A) = χ_A·1` and `χ_A' = tr adj(X·1 − A)`.
 
-Not proved (partial): rectangular right-hand sides (the theorem is stated in one ring; the model and
-the code handle `n×k`), the size of the Padé remainder for a matrix of given norm (the thresholds of `expm_higham_2005`) — these are
+Rectangular right-hand sides (`n × k`): `solve_rectangular_spec`, `solve_rectangular_unique` (the same recursion in the module of
+`n × k` matrices; equal to the model's `solveM` for `k = n`).
+
+Not proved (partial): the size of the Padé remainder for a matrix of given norm (the thresholds of `expm_higham_2005`) — these are
 checked on the implementation against independent formulas (Leibniz determinant and exponential series
 in Taylor arithmetic, residuals).
 -/
@@ -101,6 +104,27 @@ theorem solve_const_rhs_spec (a : List R) (a0inv b0 : R) (h0 : coR a 0 * a0inv =
 
 /-- non-vacuity over ℤ (a commutative instance of the ring): `x = 1 + 2t`, `y₀ = 1` -/
 example : invM [(1:ℤ), 2, 0] 1 = [1, -2, 4] := by decide
+
+/-- **rectangular right-hand sides**: `solve(A, B)` with `A(t)` an `n × n` and `B(t)` an `n × k` matrix polynomial (any `n`, `k`,
+any ring of entries) satisfies `Σ_c A_c · X_{d−c} = B_d` for every `d < D`, given `A_0 · solve(A_0, ·) = id`.  `solveRect` is the
+recursion of `_solve` with the right-hand side in the module of `n × k` matrices (`Proofs/LinalgModule.lean`; in any left module:
+`solveMod_spec`); for `k = n` it is the model's `solveM` (`solve_rectangular_square`), the definition the driver runs. -/
+theorem solve_rectangular_spec {K : Type} [Ring K] {n k : ℕ} (A : List (Matrix (Fin n) (Fin n) K)) (A0inv : Matrix (Fin n) (Fin n) K)
+    (B : List (Matrix (Fin n) (Fin k) K)) (h0 : coR A 0 * A0inv = 1) (d : Nat) (h : d < B.length) :
+    ∑ c ∈ range (d+1), coR A c * coMd (solveRect A A0inv B) (d-c) = coMd B d := solveRect_spec A A0inv B h0 d h
+
+/-- … and the solution is unique coefficient by coefficient -/
+theorem solve_rectangular_unique {K : Type} [Ring K] {n k : ℕ} (A : List (Matrix (Fin n) (Fin n) K)) (A0inv : Matrix (Fin n) (Fin n) K)
+    (h0' : A0inv * coR A 0 = 1) (B Z W : List (Matrix (Fin n) (Fin k) K)) (D : ℕ)
+    (hz : ∀ d, d < D → ∑ c ∈ range (d+1), coR A c * coMd Z (d-c) = coMd B d)
+    (hw : ∀ d, d < D → ∑ c ∈ range (d+1), coR A c * coMd W (d-c) = coMd B d) (d : ℕ) (hd : d < D) :
+    coMd Z d = coMd W d := solveRect_unique A A0inv h0' B Z W D hz hw d hd
+
+theorem solve_rectangular_square {K : Type} [Ring K] {n : ℕ} (A : List (Matrix (Fin n) (Fin n) K)) (A0inv : Matrix (Fin n) (Fin n) K)
+    (B : List (Matrix (Fin n) (Fin n) K)) : solveRect A A0inv B = solveM A A0inv B := solveRect_square A A0inv B
+
+/-- non-vacuity: a 1 × 1 matrix polynomial `A = 1 + 2t` meets the hypothesis with `A0inv = 1` -/
+example : coR [(1 : Matrix (Fin 1) (Fin 1) ℤ), 2 • 1] 0 * 1 = 1 := by simp [coR]
 
 
 /-- `_expm_pade<q>`: `U + V` and `V − U` are the numerator `N(x) = Σ b_k x^k` and the denominator `N(−x)` of the table `b` -/
